@@ -71,11 +71,13 @@ def build(flavor="san"):
         if os.path.exists(os.path.join(bdir, ".ok")):
             os.utime(os.path.join(root, hsh))
             return bdir
-        # prune stale hashes (keep the two most recently used besides this one)
+        # prune stale hashes: keep the eight most recently used, and never remove one used within the last three hours
+        # (another check may be running from it)
         others = sorted((d for d in os.listdir(root) if d != hsh and not d.startswith(".")),
                         key=lambda d: os.path.getmtime(os.path.join(root, d)), reverse=True)
-        for d in others[2:]:
-            shutil.rmtree(os.path.join(root, d), ignore_errors=True)
+        for d in others[8:]:
+            if time.time() - os.path.getmtime(os.path.join(root, d)) > 3 * 3600:
+                shutil.rmtree(os.path.join(root, d), ignore_errors=True)
         shutil.rmtree(bdir, ignore_errors=True)
         os.makedirs(bdir)
         fl = FLAVORS[flavor]
